@@ -437,6 +437,28 @@ def r3_generators(ctx, repo):
     apps = [c for c in calls_in(fn) if method_call(c) and method_call(c)[1] == "append" and c.args and isinstance(c.args[0], ast.Subscript)]
     ok = any(isinstance(c.args[0].value, ast.Subscript) and access_path(c.args[0].value.value) == fl for c in apps)
     ctx.check(ok, "R3", C, where(doe, fn), "design values are selected from the level lists (factor_lists[index][code]), never computed", key="select-only")
+    # column i of a design must belong to parameter i: the builders collect the level lists in the dictionary's
+    # (= declaration) order, never in a re-ordered view
+    for bname in ("build_lhs", "build_halton", "build_full_fact", "build_plackett_burman", "build_box_behnken"):
+        bf = doe.functions.get(bname)
+        if bf is None:
+            continue
+        dparam = func_params(bf)[0]
+        coll = [lp_ for lp_ in stmts_of(bf) if isinstance(lp_, ast.For) and any(method_call(c) and method_call(c)[1] == "append" for c in calls_in(lp_))
+                and dparam in text(lp_.iter)]
+        okb = bool(coll)
+        bad_iter = None
+        for lp_ in coll:
+            it_ = lp_.iter
+            plain = access_path(it_) == dparam or (isinstance(it_, ast.Call) and isinstance(it_.func, ast.Attribute) and access_path(it_.func.value) == dparam
+                                                   and it_.func.attr in ("keys", "items", "values") and not it_.args)
+            if not plain:
+                okb = False
+                bad_iter = it_
+        if bad_iter is not None:
+            ctx.violated("R3", "doe.%s" % bname, where(doe, bad_iter), "the level lists are collected over %s instead of the dictionary's own (declaration) order: column i is then scaled with the bounds of a different parameter" % text(bad_iter), key="column-order")
+        elif okb:
+            ctx.holds("R3", "doe.%s" % bname, where(doe, bf), "level lists collected in declaration order (column i <-> parameter i)", key="column-order")
     for gname in ("FullFactorGenerator", "PlackettBurmanGenerator", "BoxBehnkenGenerator", "LHSGenerator", "HaltonGenerator"):
         g = repo.cls(gname, "operators")
         fn = g.methods.get("generate")
